@@ -153,6 +153,40 @@ impl RetryPolicyWrapper {
     }
 }
 
+#[cfg(sozu_verif)]
+impl ExponentialBackoffPolicy {
+    /// Verification hook (compiled only with `--cfg sozu_verif`), read-only:
+    /// `(current_tries, wait, time elapsed since last_try)` as the policy's
+    /// own clock arithmetic sees them.
+    pub fn verif_get(&self) -> (usize, time::Duration, time::Duration) {
+        (self.current_tries, self.wait, self.last_try.elapsed())
+    }
+
+    /// Verification hook: let `by` pass for this policy without sleeping —
+    /// `last_try` moves into the past by exactly `by`; `wait` and
+    /// `current_tries` are left as the policy computed them.
+    pub fn verif_age_by(&mut self, by: time::Duration) {
+        self.last_try = self.last_try.checked_sub(by).unwrap_or(self.last_try);
+    }
+}
+
+#[cfg(sozu_verif)]
+impl RetryPolicyWrapper {
+    /// Verification hook forwarder for [`ExponentialBackoffPolicy::verif_get`].
+    pub fn verif_get(&self) -> (usize, time::Duration, time::Duration) {
+        match self {
+            RetryPolicyWrapper::ExponentialBackoff(p) => p.verif_get(),
+        }
+    }
+
+    /// Verification hook forwarder for [`ExponentialBackoffPolicy::verif_age_by`].
+    pub fn verif_age_by(&mut self, by: time::Duration) {
+        match self {
+            RetryPolicyWrapper::ExponentialBackoff(p) => p.verif_age_by(by),
+        }
+    }
+}
+
 impl From<ExponentialBackoffPolicy> for RetryPolicyWrapper {
     fn from(val: ExponentialBackoffPolicy) -> Self {
         RetryPolicyWrapper::ExponentialBackoff(val)
